@@ -76,6 +76,29 @@ Print Assumptions C12_damaged_payload_is_detected.
 
 (* Non-vacuity (the real CRC-32 of the model, Crc.crc32): a written chunk decodes; with one payload bit
    flipped, with one checksum bit flipped, and cut short it is rejected. *)
+(* What the per-chunk checksum does NOT give (known finding D37; the full statement of the property fails here).
+   A record of four chunks is written at the start of an empty file with the real CRC-32; block 1 of the file is
+   then overwritten by a copy of block 2 (both hold one full Middle chunk, each with a valid checksum of its own).
+   The positional read of the record succeeds and returns bytes that differ from what was written: nothing ties a
+   chunk to its position.  Computed inside Coq on the executable model; the same file is replayed against package
+   datafile on every run (corpus/C12/00_d37_block_transplant.ops), where the check reports it as a known finding. *)
+From KV Require Import Crc.
+Fixpoint c12_fill (n : nat) (b : N) : bytes := match n with O => [] | S m => b :: c12_fill m b end.
+Definition c12_payload : bytes :=
+  c12_fill (N.to_nat 32761) 1 ++ c12_fill (N.to_nat 32761) 2 ++ c12_fill (N.to_nat 32761) 3 ++ c12_fill 100 4.
+Definition c12_file : bytes := df_bytes (fst (df_write crc32 (df_open 0 []) c12_payload)).
+Definition c12_transplanted : bytes :=
+  take 32768 c12_file ++ take 32768 (drop 65536 c12_file) ++ take 32768 (drop 65536 c12_file) ++ drop 98304 c12_file.
+Theorem C12_block_transplant_is_not_detected :
+  len c12_transplanted = len c12_file /\
+  bytes_eqb c12_transplanted c12_file = false /\
+  (match read_at crc32 (df_open 0 c12_file) 0 0 with Ok v => bytes_eqb v c12_payload | _ => false end) = true /\
+  (match read_at crc32 (df_open 0 c12_transplanted) 0 0 with
+   | Ok v => negb (bytes_eqb v c12_payload) && (len v =? len c12_payload)
+   | _ => false end) = true.
+Proof. vm_compute. repeat split; reflexivity. Qed.
+Print Assumptions C12_block_transplant_is_not_detected.
+
 From KV Require Import Crc.
 Example c12_examples :
   let c := enc_chunk crc32 (0, [107; 49; 1; 2; 3]) in
